@@ -1104,6 +1104,7 @@ class Gen:
         if cx.strict:
             return None
         self.feat("with")
+        self.hermetic = False       # the body assigns an unqualified name that may fall through to the global object
         o = self.var_of_type(sc, "obj")
         src = ident(o.name) if o else self.lit("obj")
         wsc = Scope(sc, "block")
@@ -1243,7 +1244,8 @@ class Gen:
         if self.chance(0.5):
             ops[0] = "BMod"
         for op in ops:
-            out.append(guarded([pr(bin_(op, ident(a), ident(b)))]))
+            e = bin_(op, ident(a), ident(b))
+            out.append(guarded([pr(e) if self.chance(0.7) else pr(e, bin_("BDiv", num(1), e))]))      # 1/x shows the sign of a zero
         if self.chance(0.4):
             out.append(pr(("EUnary", "UNeg", ident(a)), ("EUpdate", True, True, ident(a)), ("EUpdate", False, False, ident(b))))
         if self.chance(0.3):
